@@ -139,6 +139,23 @@ def evaluate(ctx, cases):
                     exp = core.canon(base["ok"][0]) if base["ok"] else "none"
                     if got != exp:
                         ctx.violation("match must be the first element of finditer, or nothing when it is empty", {**inp, "form": fname}, got, exp)
+            # the document as JSON text again after the caller edited what earlier calls on the same text returned: the text is
+            # what is evaluated, not what an earlier call made of it
+            if "text" in forms:
+                for fn0 in (lambda: jsonpath.findall("$", txt), lambda: compiled.findall(txt), lambda: jsonpath.findall("$..*", io.StringIO(txt))):
+                    r0 = core.outcome(fn0)
+                    for o_ in (r0.get("ok") or []):
+                        if isinstance(o_, list):
+                            o_.append("__edited__"); o_.reverse()
+                        elif isinstance(o_, dict):
+                            o_.clear(); o_["__edited__"] = 1
+                for ename, fn in (("compiled.findall", lambda: compiled.findall(txt)), ("env.findall", lambda: jsonpath.findall(text, txt)), ("compiled.finditer", lambda: [x.obj for x in compiled.finditer(io.StringIO(txt))])):
+                    r = core.outcome(fn)
+                    got = _vals(r["ok"]) if "ok" in r else {"err": r["err"]}
+                    ctx.count("text-after-edit")
+                    if got != want:
+                        ctx.violation(f"{ename} on JSON text, after the caller edited the results of earlier calls on the same text, disagrees with the parsed value",
+                                      {**inp, "entry": ename, "form": "text"}, got if isinstance(got, dict) else got[:8], want[:8])
             # one compiled query, the same document OBJECT again after the caller changed it in place (and with another
             # filter context): every entry point of the compiled query must agree with a fresh evaluation of the text
             if isinstance(doc, (dict, list)) and ctx.rng.random() < (0.25 if ctx.tier == "quick" else 0.6):
